@@ -601,6 +601,11 @@ def explore_args(chk, pool, facts, cases, meta, counters):
                         counters['fault:%s' % res[1]] = counters.get('fault:%s' % res[1], 0) + 1
                         if res[1] not in table:
                             chk.violation(dict(rec, kind='fault code is not a documented constant'))
+                        dmin, dmax = documented_arity(method, sig)
+                        if res[1] == Faults.INCORRECT_PARAMETERS and dmin <= len(params) <= dmax:
+                            # arguments of the documented types and count: a TypeError inside the body was
+                            # reported as if the client had called wrongly
+                            chk.violation(dict(rec, kind='a well-typed call of the documented arity was answered INCORRECT_PARAMETERS'))
                     else:
                         chk.violation(dict(rec, kind=BAD_KIND))
                         continue
